@@ -35,7 +35,8 @@ def confirm(stage, mid, slot):
         return mid, False, "worktree: " + out
     res = {"base_commit": subprocess.run("git -C /repo rev-parse --short HEAD", shell=True, capture_output=True, text=True).stdout.strip()}
     try:
-        demo_cmd = "go test -vet=off -count=1 -run '%s' ./%s/" % (runpat, pkgdir)
+        race = "-race " if " -race " in meta["demo_cmd"] else ""
+        demo_cmd = "go test %s-vet=off -count=1 -run '%s' ./%s/" % (race, runpat, pkgdir)
         suite = "go test -vet=off -count=1 ./..."
         for f in demo_files:
             shutil.copy(f, os.path.join(wt, pkgdir))
